@@ -475,6 +475,9 @@ class Zeroconf(QuietLogger):
 
     async def async_unregister_service(self, info: ServiceInfo) -> Awaitable:
         """Unregister a service."""
+        # What is withdrawn (queued answers, goodbye) are the records of the service registered
+        # under this name, whatever ServiceInfo object the caller hands over.
+        info = self.registry.async_get_info_name(info.key) or info
         info.set_server_if_missing()
         self.registry.async_remove(info)
         # If another server uses the same addresses, we do not want to send
